@@ -230,8 +230,9 @@ def oracle_unit(rows, P):
             if not any(isinstance(v, int) and v == r["id"] for _, v in o["a"]):
                 shape_ok = False; detail["nested"] = [i, "block not referenced by any attribute of its owner"]; break
             opens = o["op"] == "method_decl" or any(k in P["initKeys"] and isinstance(v, int) and v == r["id"] for k, v in o["a"])
+            key = next((k for k, v in o["a"] if isinstance(v, int) and v == r["id"]), "?")
             stack.append({"block": r["id"], "owner": r["p"], "last": None, "inM": top["inM"] or opens,
-                          "chain": top["chain"] + [o["op"]]})
+                          "chain": top["chain"] + [o["op"] + "." + key]})
         else:
             if r["p"] != top["block"]:
                 shape_ok = False; detail["nested"] = [i, "statement whose parent is not the innermost open block"]; break
@@ -561,11 +562,17 @@ def match_known(ctx_findings, f):
     kind = f["kind"]
     if kind == "illformed" and f.get("clauses") == ["exec_in_method"]:
         chains = [tuple(c[2]) for c in f.get("detail", {}).get("exec_in_method", [])]
-        if f["lang"] == "php" and chains and all("namespace_decl" in c and "method_decl" not in c for c in chains):
+        if f["lang"] == "php" and chains and all("namespace_decl.body" in c for c in chains):
             fid = "C03/php-namespace-body-outside-method"
             return fid if fid in open_ids else None
-        if f["lang"] == "java" and chains and all(c and c[-1] == "annotation_type_decl" for c in chains):
+        if f["lang"] == "java" and chains and all(c and c[-1] == "annotation_type_decl.annotation_type_elements" for c in chains):
             fid = "C03/java-annotation-element-default-outside-method"
+            return fid if fid in open_ids else None
+        ops = [c[1] for c in f.get("detail", {}).get("exec_in_method", [])]
+        if f["lang"] == "python" and chains and all(c and c[-1] == "class_decl.nested" for c in chains) and \
+                all(o in ("field_read", "call_stmt", "array_read", "assign_stmt", "new_array", "new_record", "array_write",
+                          "record_write", "object_call_stmt") for o in ops):
+            fid = "C03/python-nested-class-header-expression-outside-method"
             return fid if fid in open_ids else None
     if kind in ("crash", "exit"):
         for x in ctx_findings:
@@ -717,7 +724,7 @@ def tie_a(ctx, P, proofs_ok):
     n_exh = 0
     for t in c03gen.exhaustive_trees(3 if tier == "quick" else 4):
         trees.append((120, t)); n_exh += 1
-    n_rand = 4000 if tier == "quick" else 200000
+    n_rand = 4000 if tier == "quick" else 120000
     for _ in range(n_rand):
         trees.append((ctx.rng.choice([1, 10, 120, 120, 130, 0, 99991]), c03gen.gen_tree(ctx.rng)))
     reqs, keep = [], []
@@ -776,6 +783,9 @@ def tie_a(ctx, P, proofs_ok):
             # flatten alone guarantees everything except the clauses add_main_func establishes
             relevant = [c for c in cl if which == "main" or c not in ("top_decl", "exec_in_method")]
             relevant = [c for c in relevant if c != "exec_in_method"]   # depends on the tree, not on the passes
+            if any(w["op"] == "method_decl" and w["p"] == 0 and next((v for k, v in w["a"] if k == "name"), None) == P["unitInit"]
+                   for w in r["rows"]):
+                relevant = [c for c in relevant if c != "one_init"]      # the tree already declares `%unit_init` (hypothesis of C03_main_func_one_init)
             if relevant:
                 failing.append({"what": f"real {which} rows of a WfGir tree are not well-formed", "n": n, "tree": t,
                                 "clauses": cl, "detail": det, "real": r})
@@ -833,7 +843,7 @@ def tie_b(ctx, P):
     tier = ctx.tier
     sizes = ({"corpus": None, "real": 10, "generated": 10, "mutants": 70, "projects": 3, "project_files": 12, "timeout": 10}
              if tier == "quick" else
-             {"corpus": None, "real": 150, "generated": 200, "mutants": 1500, "projects": 40, "project_files": 40, "timeout": 30})
+             {"corpus": None, "real": 100, "generated": 150, "mutants": 1000, "projects": 30, "project_files": 40, "timeout": 30})
     cases, cstats = build_cases(ctx, sizes)
     cdir = os.path.join(common.VERIF, "corpus", "C03")
     corpus_cases = []
@@ -963,6 +973,13 @@ def tie_b(ctx, P):
 
 
 def run(ctx):
+    try:
+        _run(ctx)
+    finally:
+        shutil.rmtree(os.path.join(common.SCRATCH_ROOT, f"lv-{os.getpid()}"), ignore_errors=True)
+
+
+def _run(ctx):
     common.use_repo()
     proofs_ok = ctx.proofs()
     P, notes = extract_params()
@@ -1046,13 +1063,18 @@ def replay(rp):
             for which in ("rows", "main"):
                 c, _ = oracle_unit([keep_row(w) for w in r[which]], P)
                 c = [x for x in c if x != "exec_in_method" and (which == "main" or x != "top_decl")]
+                if any(w["op"] == "method_decl" and w["p"] == 0 and next((v for k, v in w["a"] if k == "name"), None) == P["unitInit"]
+                       for w in r["rows"]):
+                    c = [x for x in c if x != "one_init"]
                 cl += c
         print(json.dumps({"real": r["res"], "failed_clauses": cl}))
         return 1 if (bad or cl) else 0
     if rp.get("kind") == "source" and rp.get("case"):
         case = case_from_json(rp["case"])
-        fs = failures_of_case(case)
-        shutil.rmtree(_SCRATCH[0], ignore_errors=True)
+        try:
+            fs = failures_of_case(case)
+        finally:
+            shutil.rmtree(_SCRATCH[0], ignore_errors=True)
         print(json.dumps({"failures": [{k: v for k, v in f.items() if k != "detail"} for f in fs]}, default=str))
         return 1 if fs else 0
     print(json.dumps({"note": "replay file names a broken proof obligation / correspondence, there is no input to re-run"}))
